@@ -313,8 +313,8 @@ func (c *AtomicCell) Load(id any, init any) any {
 	return c.val
 }
 
-func (c *AtomicCell) Store(id any, v any) {
-	c.touch(v)
+func (c *AtomicCell) Store(id any, init any, v any) {
+	c.touch(init)
 	point(fmt.Sprintf("atomic.Store %p", id), nil)
 	c.val = v
 	s.cur.release(&c.vc)
